@@ -59,7 +59,14 @@ let decimal_of_n (x : M.n) : string =
         if !carry > 0 then digits := !digits @ [ !carry ]) bl;
     String.concat "" (List.rev_map string_of_int !digits)
 
-let rec nat_of_int (i : int) : M.nat = if i <= 0 then M.O else M.S (nat_of_int (i - 1))
+let nat_memo : (int, M.nat) Hashtbl.t = Hashtbl.create 16
+let nat_of_int (i : int) : M.nat =
+  match Hashtbl.find_opt nat_memo i with
+  | Some n -> n
+  | None ->
+    let rec go k acc = if k <= 0 then acc else go (k - 1) (M.S acc) in
+    let n = go i M.O in
+    Hashtbl.replace nat_memo i n; n
 let int_of_nat (x : M.nat) : int = let rec go x acc = match x with M.O -> acc | M.S y -> go y (acc + 1) in go x 0
 
 let bytes_of_hex (h : string) : M.ascii list =
@@ -74,3 +81,12 @@ let hex_of_bytes (l : M.ascii list) : string =
 
 let split_ws (s : string) : string list =
   List.filter (fun x -> x <> "") (String.split_on_char ' ' s)
+
+let decimal_of_z (x : M.z) : string =
+  match x with
+  | M.Z0 -> "0"
+  | M.Zpos p -> decimal_of_n (M.Npos p)
+  | M.Zneg p -> "-" ^ decimal_of_n (M.Npos p)
+
+let join_sorted (l : string list) : string =
+  match List.sort compare l with [] -> "-" | l -> String.concat "," l
